@@ -41,9 +41,13 @@ def gen_txring(P):
                 elif k < 0.75:
                     ops.append("tx regdisp")
                 elif k < 0.82:
-                    ops.append("tx flush")
+                    ops.append("tx flushb" if r.random() < 0.25 else "tx flush")
                 elif k < 0.87:
-                    ops.append("tx shutdown")
+                    # a flush/shutdown re-issued from another task (the first future dropped) must register the NEW waker
+                    ops.append("tx shutdownb" if r.random() < 0.3 else "tx shutdown")
+                    if r.random() < 0.4:
+                        ops.append(r.choice(["tx shutdownb", "tx shutdown", "tx flushb"]))
+                        ops.append("tx takeww")
                 elif k < 0.90:
                     ops.append("tx close")
                 elif k < 0.92:
@@ -79,6 +83,7 @@ def oracle_txring(P):
         caps = []
         maxes = []
         pending_write_waiting = False
+        pending_fs_waiting = False
         last_poller = None
         dead = False
         for op, out in zip(case, impl):
@@ -101,6 +106,7 @@ def oracle_txring(P):
                 caps = [int(t[2])]
                 written = removed = 0
                 pending_write_waiting = False
+                pending_fs_waiting = False
                 last_poller = None
             elif t[1] in ("writepos", "writeposb"):
                 if res == "pending" and kv.get("wb" if t[1] == "writeposb" else "ww", "0") == "0":
@@ -113,9 +119,11 @@ def oracle_txring(P):
                     written += n
                 elif res == "pending" and kv.get("ww") == "0" and kv.get("wb", "0") == "0":
                     pending_write_waiting = True
-            elif t[1] in ("flush", "shutdown"):
-                if res == "pending" and kv.get("ww", "0") == "0":
-                    last_poller = "a"         # polled by task A: its waker replaces whatever was stored
+            elif t[1] in ("flush", "shutdown", "flushb", "shutdownb"):
+                me = "b" if t[1].endswith("b") else "a"
+                if res == "pending" and kv.get("wb" if me == "b" else "ww", "0") == "0":
+                    last_poller = me          # polled by this task: its waker replaces whatever was stored
+                    pending_fs_waiting = True
             elif t[1] == "trunc":
                 if res == "ok":
                     removed += int(t[2])
@@ -125,13 +133,14 @@ def oracle_txring(P):
                 maxes.append(int(t[2]))
             elif t[1] == "takeww":
                 tot = int(kv.get("ww", 0)) + int(kv.get("wb", 0))
-                if pending_write_waiting and tot == 1 and last_poller is not None and kv.get("wb" if last_poller == "b" else "ww") != "1":
+                if (pending_write_waiting or pending_fs_waiting) and tot == 1 and last_poller is not None and kv.get("wb" if last_poller == "b" else "ww") != "1":
                     hits.append({"sig": {"oracle": "txring", "what": "stale_waker_woken"},
-                                 "text": f"the write half was last polled (Pending) by task {last_poller.upper()}, but `{op}` woke the other task: {out}: the task actually waiting in write is never woken"})
+                                 "text": f"the write half was last polled (Pending) by task {last_poller.upper()}, but `{op}` woke the other task: {out}: the task actually waiting in write/flush/shutdown is never woken"})
                 if pending_write_waiting and tot != 1:
                     hits.append({"sig": {"oracle": "txring", "what": "writer_not_woken"},
                                  "text": f"a write that found the buffer full returned Pending but no writer waker was registered: `{op}` -> {out}"})
                 pending_write_waiting = False
+                pending_fs_waiting = False
             elif t[1] in ("close",):
                 pending_write_waiting = False
             elif t[1] == "peek" and res == "ok":
